@@ -13,7 +13,7 @@ import Tahoe.Mutable.ServerMap
 | "In every interleaving where no writer stops midway and (writers + 1) × k ≤ N, at least one version (old or new) remains recoverable" | `some_version_recoverable` ((old versions + W)·k ≤ N, every share number present or attempted), `some_version_recoverable_one_old` (the statement's form) |
 | MDMF multi-write guarded by its own checkstring | in the model (`seen` := own version after a successful write; `view_is_survey_or_own_write`); the code base sends one request per share, so only the single-write case is exercised by correspondence |
 | retry with backoff (`MutableFileVersion._modify_and_retry`), i.e. that concurrent `modify()` calls converge without losing a reported edit | NOT a theorem: false for the code as it is — `modify_convergence_counterexample` (negation witness on the model; open finding in known_findings.d/C12.json); the stale-pinned-version defect of the retry loop was fixed (fixes/C12-modify-retry-stale-version.diff, committed) and is monitored on the grid |
-| test vector a new-share write carries is "must not exist" | correspondence (test-vector kind of every recorded write vs the model's expectation) |
+| test vector a new-share write carries is "must not exist" | `new_share_write_must_not_exist` (a slot the writer never surveyed nor wrote: lands only if still empty, otherwise refused and reported), tied by the test-vector kind of every recorded write vs the model's expectation |
 -/
 namespace Tahoe.C12
 open Tahoe.Mutable.Race
@@ -222,6 +222,33 @@ example : (∀ slot v, oldStore slot = some v → v = 0) ∧ (∀ sh, sh < 4 →
     subst hw
     simp only [schedEx, List.mem_cons, Ev.write.injEq, reduceCtorEq, false_or, List.not_mem_nil, or_false] at he
     omega
+
+/-- A share the writer places for the first time — it never surveyed that server and never wrote that slot, in any
+    schedule from the start — carries the "must not exist" test: the write lands only if the slot is still empty; if
+    another writer has put a share there meanwhile it is refused, nothing changes, and the writer is marked refused
+    (hence `UncoordinatedWriteError`, by `surprise_reported`). -/
+theorem new_share_write_must_not_exist (cfg : Cfg) (store0 : Slot → Option Ver) (pre : List Ev) (w : Nat) (slot : Slot)
+    (hev : ∀ e ∈ pre, e ≠ .survey w slot.1 ∧ e ≠ .write w slot) :
+    let st := run cfg (St.init store0) pre
+    st.seen w slot = none ∧
+    (st.store slot = none → (step cfg st (.write w slot)).store slot = some (cfg.ver w)) ∧
+    (st.store slot ≠ none → (step cfg st (.write w slot)).store = st.store ∧
+      (step cfg st (.write w slot)).refused w = true) := by
+  intro st
+  have hnone : st.seen w slot = none := run_seen_none cfg _ pre w slot rfl hev
+  refine ⟨hnone, fun hempty => ?_, fun hfull => ?_⟩
+  · simp only [step, hempty, hnone, if_true]; simp [upd]
+  · have hne : ¬ st.store slot = st.seen w slot := by rw [hnone]; exact hfull
+    constructor
+    · simp only [step, hne, if_false]
+    · simp only [step, hne, if_false]; simp [upd]
+
+/-- two writers place the lost share 3 on server 0 without having surveyed it: the first lands, the second is refused -/
+example :
+    let cfg : Cfg := { cfgEx with goal := fun _ => [(0, 3)] }
+    (run cfg (St.init oldStore) [.write 0 (0, 3)]).store (0, 3) = some 1 ∧
+    (run cfg (St.init oldStore) [.write 0 (0, 3), .write 1 (0, 3)]).store (0, 3) = some 1 ∧
+    outcome cfg (run cfg (St.init oldStore) [.write 0 (0, 3), .write 1 (0, 3)]) 1 = .uncoordinatedWrite := by decide
 
 /-! ### the open finding (known_findings.d/C12.json) as a theorem about the model of the code as it is
 
